@@ -969,8 +969,25 @@ func (vfs *MemFS) rename(oldpath, newpath string) (done bool, err error) {
 		return true, nil
 	}
 
-	switch oChild.(type) {
+	switch oc := oChild.(type) {
 	case *dirNode:
+		if nParent != oParent {
+			// the entry ".." of a directory changes when it is moved to another directory : write permission is needed on it.
+			// (when newpath is below oldpath, or oldpath is the root directory,
+			// the directory is locked already and the call fails further down)
+			ok := true
+
+			if oc != nParent && oc != oParent {
+				oc.mu.RLock()
+				ok = oc.checkPermission(avfs.OpenWrite, vfs.User())
+				oc.mu.RUnlock()
+			}
+
+			if !ok {
+				return true, &os.LinkError{Op: op, Old: oldpath, New: newpath, Err: vfs.err.PermDenied}
+			}
+		}
+
 		if !vfs.isNotExist(nErr) {
 			if vfs.OSType() == avfs.OsWindows {
 				nErr = avfs.ErrWinAccessDenied
